@@ -415,6 +415,74 @@ def run_c15(cfg: HCfg, c: Ctx) -> Any:
     return data
 
 
+# ------------------------------------------------------------------------------------------------ C15: arguments and setup nodes
+SETUP_INPUT_ROUTES = ("positional", "keyword", "flag", "indexed-flag", "defaulted-argument-flag", "through-node-flag")
+
+
+@watchdog(lambda cfg: "C15")
+def run_c15_setup_inputs(cfg: HCfg, c: Ctx) -> Any:
+    """Setup results are the one thing a DAG keeps between calls, so a call argument must not be able to reach a setup node.
+    Every route is either refused when the DAG is built or, if accepted, the second call still behaves like a fresh DAG."""
+    from tawazi import Resource, dag, xn
+    from tawazi.errors import TawaziBaseException
+
+    route = SETUP_INPUT_ROUTES[c.choose(len(SETUP_INPUT_ROUTES), "route")]
+    flavour = cfg.flavours[c.choose(len(cfg.flavours), "flavour")] if len(cfg.flavours) > 1 else cfg.flavours
+
+    def make(l: str) -> Any:
+        def fn(*args, **kwargs):  # type: ignore[no-untyped-def]
+            parts = [lift(a) for a in args]
+            for k in sorted(kwargs):
+                parts += [lift("kw:" + k), lift(kwargs[k])]
+            return SymVal(vapp("f_" + l, parts))
+
+        fn.__name__ = fn.__qualname__ = l
+        return fn
+
+    def build() -> Any:
+        load = xn(make("load"), setup=True, resource=Resource.main_thread)
+        pre = xn(make("pre"), resource=Resource.main_thread)
+        use = xn(make("use"), resource=Resource.main_thread)
+
+        def pipe(a, b=11):  # type: ignore[no-untyped-def]
+            if route == "positional":
+                m = load(a)
+            elif route == "keyword":
+                m = load(k=a)
+            elif route == "flag":
+                m = load(twz_active=a)
+            elif route == "indexed-flag":
+                m = load(twz_active=a[0])
+            elif route == "defaulted-argument-flag":
+                m = load(twz_active=b)
+            else:
+                m = load(twz_active=pre(a))
+            return use(m, a)
+
+        pipe.__qualname__ = pipe.__name__ = "pipe"
+        return dag(pipe, is_async=(flavour == "a"))
+
+    data: Dict[str, Any] = {"route": route, "flavour": flavour}
+    try:
+        d = build()
+    except SXControl:
+        raise
+    except TawaziBaseException:
+        c.cover("w_refused")
+        if cfg.twin:
+            c.check(False, "reachability twin: the end of the harness is reachable", prop="TWIN")
+        return {"case": "refused at build time", **data}
+    fresh = build()
+    A0, B0, A1, B1 = c.val("a0"), c.val("b0"), c.val("a1"), c.val("b1")
+    _run(d, A0, B0)
+    got = _run(d, A1, B1)
+    want = _run(fresh, A1, B1)
+    c.check(veq(got, want), "a DAG whose setup node is reached by a call argument (%s) was accepted and its second call does not behave like a freshly built DAG" % route,
+            prop="C15", data={**data, "got": got, "want": want})
+    c.cover("w_accepted")
+    return {"case": "accepted", **data}
+
+
 # ------------------------------------------------------------------------------------------------ C18
 @watchdog(lambda cfg: "C18")
 def run_c18(cfg: HCfg, c: Ctx) -> Any:
